@@ -106,8 +106,13 @@ func (s *trieSys) Proj() any {
 		p.Size = s.t.Size()
 		if full {
 			p.Full = true
+			// an earlier result that the caller did not (fully) consume must not leak into the next one
+			if len(sw) > 1 {
+				s.t.StartsWith(sw[1])
+			}
 			q, _ := s.t.Keys()
 			p.Keys = drainQ(q)
+			s.t.Keys() // left undrained on purpose before the queries below
 		}
 		for _, k := range get {
 			v, ok := s.t.Get(k)
@@ -116,10 +121,18 @@ func (s *trieSys) Proj() any {
 			p.GV = append(p.GV, v)
 			p.CF = append(p.CF, s.t.Contains(k))
 		}
-		for _, k := range sw {
+		for i, k := range sw {
 			q, err := s.t.StartsWith(k)
 			p.SQ = append(p.SQ, bytesOf(k))
 			p.SE = append(p.SE, err != nil)
+			if i%2 == 1 && q != nil && q.Size() > 1 {
+				// consume only part of this one first: the next query must still stand on its own
+				first, _ := q.Dequeue()
+				rest := drainQ(q)
+				p.SR = append(p.SR, append([][]int{bytesOf(first)}, rest...))
+				s.t.StartsWith(k) // and leave a complete result behind
+				continue
+			}
 			p.SR = append(p.SR, drainQ(q))
 		}
 		for _, k := range lp {
